@@ -147,18 +147,17 @@ func svcSessions(run *vh.Run, n int) {
 				}
 			default:
 				// any other kind of message, with a stale sequence, or with the running session's own sequence for
-				// the kinds that are inert while only the finder exists (the others are driven by their own parts:
-				// hashesRsp needs a hash fetcher; hashByNoRsp with the current sequence is the late-finder-reply
-				// hazard, see lateFinderReply)
+				// the kinds that are inert while only the finder exists (hashesRsp needs a hash fetcher; a
+				// hashByNoRsp with the current sequence reaches a finder that has already returned: lateFinderReply)
 				k := kinds[1+rng.Intn(len(kinds)-1)]
 				seq := sy.Seq - 1 - uint64(rng.Intn(2))
 				if rng.Intn(3) == 0 {
 					switch k {
-					case "anchorsRsp", "ancestorRsp", "blockChunksRsp", "addBlockRsp", "closeFetcher", "blockChunksReq", "other", "syncStop":
+					case "anchorsRsp", "ancestorRsp", "hashByNoRsp", "blockChunksRsp", "addBlockRsp", "closeFetcher", "blockChunksReq", "other", "syncStop":
 						seq = sy.Seq
 					}
 				}
-				if k == "finderResult" || ((k == "hashesRsp" || k == "hashByNoRsp") && seq == sy.Seq) {
+				if k == "finderResult" || (k == "hashesRsp" && seq == sy.Seq) {
 					k = "blockChunksRsp"
 				}
 				for len(notify) > 0 {
@@ -411,46 +410,111 @@ func joinComma(l []string) string {
 	return s
 }
 
-// lateFinderReply: the reply to a finder probe that is queued in the syncer's mailbox before the finder's timer
-// fires and handled after it (the actor was busy meanwhile), i.e. mailbox order [GetHashByNoRsp, SyncStop].
-// handleGetHashByNoRsp hands it over with a blocking send on the unbuffered fScanCh; the finder goroutine has
-// returned, so the send never completes: the syncer actor is stuck, the finder's own SyncStop behind it is
-// never processed. Returns whether the real Receive call blocked.
-func lateFinderReply(run *vh.Run) bool {
-	local := newChain(nil, -1, 5, 13001)
-	req := &recReq{}
-	sy := syncer.NewSyncer(nil, &memChain{local}, syncer.VerifC17NewCfg(3, 2, 2, 2, 30*time.Millisecond, true))
-	sy.SetRequester(req)
-	notify := make(chan error, 4)
-	sy.Receive(actorCtx{m: &message.SyncStart{PeerID: peerID(0), TargetNo: 9, NotifyC: notify}})
-	var stop *message.SyncStop
-	asked := false
-	for i := 0; i < 600 && stop == nil; i++ {
-		time.Sleep(5 * time.Millisecond)
-		for _, m := range req.take() {
-			switch x := m.(type) {
-			case *message.GetHashByNo:
-				asked = true
-			case *message.SyncStop:
-				stop = x
-			}
-		}
-	}
-	if !asked || stop == nil {
-		run.Count("late-finder-reply:setup-failed")
-		return false
-	}
+// recvGuard calls the real Syncer.Receive and reports whether it returned within the watchdog.
+func recvGuard(sy *syncer.Syncer, m interface{}) bool {
 	done := make(chan struct{})
 	go func() {
 		defer func() { _ = recover() }()
-		sy.Receive(actorCtx{m: &message.GetHashByNoRsp{Seq: sy.Seq, BlockHash: local.hashAt(2)}})
+		sy.Receive(actorCtx{m: m})
 		close(done)
 	}()
 	select {
 	case <-done:
-		sy.Receive(actorCtx{m: stop})
-		return false
-	case <-time.After(400 * time.Millisecond):
 		return true
+	case <-time.After(2 * time.Second):
+		return false
+	}
+}
+
+// lateFinderReply: replies to the finder's GetHashByNo probes that the syncer actor handles when the finder no
+// longer waits for them. (A) mailbox order [GetHashByNoRsp, SyncStop]: the probe timed out, the finder posted its
+// SyncStop and returned, the reply queued just before is handled first. (B) a duplicate reply handled after the
+// finder's result has been accepted (finder == nil). In both the actor must return from Receive (the property's
+// "never deadlocks": the pinned code blocked for ever on the unbuffered fScanCh in (A) and dereferenced the nil
+// finder in (B); repaired by a353b784), the session must stay as it is, and the stop behind must end it.
+func lateFinderReply(run *vh.Run) {
+	var ops []string
+	op := func(sy *syncer.Syncer, line string) {
+		o := fmt.Sprintf("seq=%d running=%d target=%d", sy.Seq, b2i(sy.VerifC17IsRunning()), sy.VerifC17Target())
+		ops = append(ops, line+" => "+o)
+		run.Op(line, o, sy.VerifC17IsRunning())
+	}
+	for _, variant := range []string{"after-timeout", "after-result"} {
+		ops = nil
+		local := newChain(nil, -1, 5, 13001)
+		req := &recReq{}
+		sy := syncer.NewSyncer(nil, &memChain{local}, syncer.VerifC17NewCfg(3, 2, 2, 2, 40*time.Millisecond, true))
+		sy.SetRequester(req)
+		notify := make(chan error, 4)
+		op(sy, "sys new")
+		sy.Receive(actorCtx{m: &message.SyncStart{PeerID: peerID(0), TargetNo: 9, NotifyC: notify}})
+		op(sy, "sys start 9 5")
+		seq := sy.Seq
+		var stop *message.SyncStop
+		var result *message.FinderResult
+		asked := 0
+		for i := 0; i < 800 && stop == nil && result == nil; i++ {
+			time.Sleep(3 * time.Millisecond)
+			for _, m := range req.take() {
+				switch x := m.(type) {
+				case *message.GetHashByNo:
+					asked++
+					if variant == "after-result" {
+						// the peer answers in time: same chain
+						if !recvGuard(sy, &message.GetHashByNoRsp{Seq: seq, BlockHash: local.hashAt(x.BlockNo)}) {
+							run.Fail("the syncer actor did not return from Receive (timely GetHashByNoRsp)", map[string]interface{}{"variant": variant, "session": ops})
+							return
+						}
+					}
+				case *message.SyncStop:
+					stop = x
+				case *message.FinderResult:
+					result = x
+				}
+			}
+		}
+		if asked == 0 || (variant == "after-timeout" && stop == nil) || (variant == "after-result" && result == nil) {
+			run.Count("late-finder-reply:setup-failed")
+			continue
+		}
+		if result != nil {
+			if !recvGuard(sy, result) {
+				run.Fail("the syncer actor did not return from Receive (FinderResult)", map[string]interface{}{"variant": variant, "session": ops})
+				return
+			}
+			op(sy, fmt.Sprintf("sys msg finderResult %d", seq))
+			if !sy.VerifC17IsRunning() {
+				run.Fail("an ancestor found by the finder ended the session", map[string]interface{}{"variant": variant, "session": ops})
+			}
+		}
+		// the late / duplicate reply
+		if !recvGuard(sy, &message.GetHashByNoRsp{Seq: seq, BlockHash: local.hashAt(2)}) {
+			run.Fail("the syncer actor is blocked for ever in Receive: a GetHashByNoRsp of the running session handled after the finder gave up (the SyncStop queued behind it is never processed)",
+				map[string]interface{}{"variant": variant, "session": ops, "mailbox": []string{"GetHashByNoRsp(seq=cur)", "SyncStop(seq=cur)"}})
+			return
+		}
+		op(sy, fmt.Sprintf("sys msg hashByNoRsp %d", seq))
+		if !sy.VerifC17IsRunning() || sy.Seq != seq {
+			run.Fail("a late GetHashByNoRsp changed the session", map[string]interface{}{"variant": variant, "session": ops})
+		}
+		if stop == nil {
+			stop = &message.SyncStop{Seq: seq, FromWho: "test", Err: errStub}
+		}
+		if !recvGuard(sy, stop) {
+			run.Fail("the syncer actor did not return from Receive (SyncStop)", map[string]interface{}{"variant": variant, "session": ops})
+			return
+		}
+		op(sy, fmt.Sprintf("sys stop %d", seq))
+		if sy.VerifC17IsRunning() {
+			run.Fail("session not torn down by the stop that followed a late GetHashByNoRsp", map[string]interface{}{"variant": variant, "session": ops})
+		}
+		// a later synchronisation can start
+		sy.Receive(actorCtx{m: &message.SyncStart{PeerID: peerID(0), TargetNo: 8, NotifyC: notify}})
+		op(sy, "sys start 8 5")
+		if !sy.VerifC17IsRunning() || sy.Seq != seq+1 {
+			run.Fail("a synchronisation could not be started after a late GetHashByNoRsp", map[string]interface{}{"variant": variant, "session": ops})
+		}
+		recvGuard(sy, &message.SyncStop{Seq: sy.Seq, FromWho: "test"})
+		run.Count("late-finder-reply:" + variant)
 	}
 }
